@@ -40,7 +40,7 @@ package state
 //@   atcall revert assert [journal-reverted-to-the-length-recorded-by-that-revision] arg_j == self.journal && arg_statedb == self && calls(revert) == 0 \
 //@              && exists(a, 0, len(self.validRevisions), self.validRevisions[a].id == revid && self.validRevisions[a].journalIndex == arg_snapshot)
 //@   ensures  [journal-reverted-once] calls(revert) == 1
-//@   ensures  [revision-found-by-id] 0 <= idx && idx < old(len(self.validRevisions)) && old(self.validRevisions[idx].id) == revid && len(self.validRevisions) == idx
+//@   check    [revision-found-by-id] 0 <= idx && idx < old(len(self.validRevisions)) && old(self.validRevisions[idx].id) == revid && len(self.validRevisions) == idx
 //@   ensures  [this-and-later-revisions-invalidated] forall(a, 0, len(self.validRevisions), self.validRevisions[a].id < revid) && len(self.validRevisions) <= old(len(self.validRevisions))
 
 //@ func (*journal).revert
